@@ -99,6 +99,7 @@ type client struct {
 	panicMsg string
 	hangOp   bool
 	inflight bool
+	opStart  time.Time
 }
 
 // Sched is the serialising scheduler. Exactly one client goroutine runs at a time;
@@ -129,9 +130,10 @@ type Sched struct {
 	StepBudget int
 	TempDomain int // >0: temp-name random part drawn from this many values
 
-	// temp-name context for sequential (non-client) execution
+	// temp-name context for sequential (non-client) execution, or when Alias is set
 	SeqClient, SeqOp int
 	seqAttempt       int
+	Alias            bool
 
 	// outputs (main goroutine only)
 	Decisions   []uint8
@@ -180,9 +182,9 @@ func NewSched(t *Tape) *Sched {
 	}
 
 	s.tape = t
-	s.StepBudget = 1000000
+	s.StepBudget = 200000
 	s.last = -1
-	s.Watchdog = 20 * time.Second
+	s.Watchdog = 10 * time.Second
 	epochCounter++
 	s.epoch = epochCounter%(1<<(32-slotBits)-1) + 1
 
@@ -200,6 +202,21 @@ func (s *Sched) Free() {
 	}
 
 	schedPool = append(schedPool, s)
+}
+
+// Call1As is Call1 for the sequential re-execution of call (client, op) of a concurrent program:
+// the temp-name candidates are those of that call.
+func Call1As(client, op, tempDomain int, fn OpFunc) (out string, v Verdict, msg string) {
+	s := NewSched(nil)
+	s.TempDomain = tempDomain
+	s.Alias = true
+	s.SeqClient, s.SeqOp = client, op
+	s.AddClient([]OpFunc{fn})
+	v, msg = s.Run()
+	out = s.Records(0)[0].Out
+	s.Free()
+
+	return out, v, msg
 }
 
 // Call1 runs a single call on a one-client scheduler: a self-deadlock, a busy loop or a panic
@@ -502,7 +519,11 @@ func (*hookT) TempName(name, prefix, suffix string) string {
 
 	var cl, op, attempt int
 
-	if c := s.cur; c != nil {
+	if c := s.cur; c != nil && s.Alias {
+		cl, op = s.SeqClient, s.SeqOp
+		attempt = s.seqAttempt
+		s.seqAttempt++
+	} else if c != nil {
 		cl, op = c.idx, c.curOp
 		attempt = s.attempts[c.idx]
 		s.attempts[c.idx]++
@@ -687,6 +708,15 @@ func (s *Sched) Run() (Verdict, string) {
 		if c.hangOp {
 			verdict = VHang
 			msg = fmt.Sprintf("client %d call %d exceeded %d lock events", c.idx, c.curOp, s.StepBudget)
+
+			break
+		}
+
+		if c.req == reqOpStart {
+			c.opStart = time.Now()
+		} else if step%1024 == 0 && time.Since(c.opStart) > 3*s.Watchdog {
+			verdict = VHang
+			msg = fmt.Sprintf("client %d call %d still running after %v (%d lock events so far)", c.idx, c.curOp, 3*s.Watchdog, c.steps)
 
 			break
 		}
